@@ -93,6 +93,29 @@ def gen_q2_case(rng):
     return {'f': f, 'gts': gts, 'eqs': eqs, 'p': 0, 'q': 2, 'ell': 0, 'slacks': rng.random() < 0.5, 'infer': False, 'q2': True}
 
 
+def gen_eq_posy_case(rng):
+    """a domain that absorbs a monomial EQUATION and a posynomial inequality with three terms: the inferred X lists a '0' cone before its
+    exponential cones; relaxations over it in both forms"""
+    a, b = rng.choice([5, 6, 8]), rng.choice([2, 3])
+    f = rm.sig_leaf([[F(-1), F(0)], [F(0), F(-1)], [F(1), F(1)]], [F(rng.choice([1, 2])), F(rng.choice([1, 3])), F(1, rng.choice([1, 2]))])
+    g = rm.sig_leaf([[F(0), F(0)], [F(1), F(0)], [F(0), F(1)]], [F(a), F(-1), F(-1)])            # a - e^{x0} - e^{x1} >= 0
+    h = rm.sig_leaf([[F(0), F(0)], [F(1), F(0)]], [F(b), F(-1)])                                # b - e^{x0} = 0
+    return {'f': f, 'gts': [g], 'eqs': [h], 'p': 0, 'q': 1, 'ell': 0, 'slacks': rng.random() < 0.5, 'infer': True, 'fam': 'eq+posy'}
+
+
+def gen_kept_case(rng):
+    """X inferred from a box while one inequality with two positive terms stays in the Lagrangian, multipliers of level p = 1: the
+    multiplier cones of the dual are conditional cones over affine images of v"""
+    f = rm.sig_leaf([[F(1), F(0)], [F(0), F(1)], [F(-1), F(-1)]], [F(1), F(rng.choice([1, 2])), F(rng.choice([1, 2]))])
+    box = []
+    for i in range(2):
+        e = [F(1) if j == i else F(0) for j in range(2)]
+        box.append(rm.sig_leaf([[F(0), F(0)], e], [F(4), F(-1)]))
+        box.append(rm.sig_leaf([e, [F(0), F(0)]], [F(1), F(-1, 4)]))
+    kept = rm.sig_leaf([[F(0), F(2)], [F(1), F(0)], [F(0), F(0)]], [F(1), F(1), F(-rng.choice([7, 8, 19]), 2)])      # e^{2 x1} + e^{x0} >= 3.5 .. 9.5
+    return {'f': f, 'gts': box + [kept], 'eqs': [], 'p': 1, 'q': 1, 'ell': 0, 'slacks': False, 'infer': True, 'fam': 'kept'}
+
+
 def gen_case(rng):
     r0 = rng.random()
     if r0 < 0.2:
@@ -283,7 +306,8 @@ def run(ctx):
     quick = ctx.quick()
     common.run_regressions(ctx, 'C04', recheck)
     N = 60 if quick else 400
-    cases = [gen_case(rng) for _ in range(N)]
+    cases = [gen_eq_posy_case(rng) for _ in range(2 if quick else 10)] + [gen_kept_case(rng) for _ in range(1 if quick else 6)]
+    cases += [gen_case(rng) for _ in range(N)]
     cases += [gen_q2_case(rng) for _ in range(4 if quick else 30)]          # (never left to the luck of the draw)
     reals = []
     for c in cases:
